@@ -175,7 +175,7 @@ impl EditProp {
             }
         }
         let (depth_cached, depth_nocache) = match (self.0, t) {
-            (Which::C04, Tier::Quick) => (2, 1),
+            (Which::C04, Tier::Quick) => (3, 2),
             (Which::C04, Tier::Thorough) => (4, 2),
             (Which::C05, Tier::Quick) => (3, 2),
             (Which::C05, Tier::Thorough) => (5, 3),
